@@ -257,6 +257,26 @@ def _dict_keys(node: ast.AST, ctx: Ctx | None = None, f: Func | None = None) -> 
     return out
 
 
+def _request_method(c):
+    """The method of the child-side class that sends a message and waits for the answer: it calls
+    both `write` and `read` on the communicator (found by what it does, not by its name)."""
+    for m in c.methods.values():
+        names = {x.func.attr for x in ast.walk(m.node) if isinstance(x, ast.Call) and isinstance(x.func, ast.Attribute)}
+        if {"read", "write"} <= names and m.name not in ("run", "start"):
+            return m
+    return None
+
+
+def _liveness_methods(ctx: Ctx) -> set[str]:
+    """Names of methods in the module that test whether a process is alive: os.kill(pid, 0) / poll() / is_alive()."""
+    out = {"poll", "is_alive"}
+    for f in ctx.repo.funcs_in(MOD):
+        for c in ast.walk(f.node):
+            if isinstance(c, ast.Call) and dotted(c.func) == "os.kill" and len(c.args) == 2 and isinstance(c.args[1], ast.Constant) and c.args[1].value == 0:
+                out.add(f.name)
+    return out
+
+
 def protocol_tables(ctx: Ctx):
     """Literals written / read on each side of the pipe protocol."""
     m = ctx.repo.module(MOD)
@@ -265,7 +285,7 @@ def protocol_tables(ctx: Ctx):
         names = set(c.methods)
         if any(b.endswith("Optimizer") for b in c.base_names) and "start" in names:
             parent_cls = c
-        if "run" in names and "_request" in names:
+        if "run" in names and not any(b.endswith("Optimizer") or b.endswith("Plugin") for b in c.base_names) and _request_method(c) is not None:
             child_cls = c
     if parent_cls is None or child_cls is None:
         raise AnalysisError("parent/child classes of the external optimizer not found")
@@ -273,7 +293,7 @@ def protocol_tables(ctx: Ctx):
     c2p_written: set[str] = set()
     for mth in child_cls.methods.values():
         for call in calls_in(mth):
-            if isinstance(call.func, ast.Attribute) and call.func.attr == "_request" and call.args:
+            if isinstance(call.func, ast.Attribute) and call.func.attr == _request_method(child_cls).name and call.args:
                 a = call.args[0]
                 if isinstance(a, ast.Constant) and isinstance(a.value, str):
                     c2p_written.add(a.value)
@@ -384,11 +404,18 @@ def c20_4(ctx: Ctx) -> RuleResult:
 @rule(P)
 def c20_5(ctx: Ctx) -> RuleResult:
     res = RuleResult("C20.5", "DOM", "every waiting loop tests peer liveness in each iteration")
+    live_names = _liveness_methods(ctx)
+    # calls that wait for the peer: pipe I/O, sleeping, and the package methods that do pipe I/O
+    waiting = {"read", "write", "sleep", "select"}
+    for f_ in ctx.repo.funcs_in(MOD):
+        if f_.cls is not None and any(isinstance(x, ast.Call) and isinstance(x.func, ast.Attribute) and x.func.attr in ("read", "write") for x in ast.walk(f_.node)):
+            if f_.name not in ("read", "write", "run", "start"):
+                waiting.add(f_.name)
     for f in ctx.repo.funcs_in(MOD):
         for w in nodes_in(f, ast.While):
             body_calls = [c for s in list(w.body) + [w.test] for c in ast.walk(s) if isinstance(c, ast.Call)]
             waits = any(
-                isinstance(c.func, ast.Attribute) and c.func.attr in ("read", "write", "sleep", "_request", "select", "_handle_request")
+                isinstance(c.func, ast.Attribute) and c.func.attr in waiting
                 for c in body_calls
             )
             if not waits:
@@ -396,7 +423,7 @@ def c20_5(ctx: Ctx) -> RuleResult:
 
             def liveness(n: ast.AST) -> bool:
                 for c in ast.walk(n):
-                    if isinstance(c, ast.Call) and isinstance(c.func, ast.Attribute) and c.func.attr in ("poll", "_check_parent", "is_alive"):
+                    if isinstance(c, ast.Call) and isinstance(c.func, ast.Attribute) and c.func.attr in live_names:
                         return True
                     if isinstance(c, ast.Call) and dotted(c.func) == "os.kill" and len(c.args) == 2 and isinstance(c.args[1], ast.Constant) and c.args[1].value == 0:
                         return True
